@@ -257,9 +257,20 @@ func c14r2(rc *core.RC) {
 				rc.Unknown(key, as.Pos(), "stored value is not a variable")
 				return true
 			}
-			// find its definition
+			// every assignment to the stored variable must be a compile call on this function's type argument
 			good := false
 			what := ""
+			nAssign := 0
+			ast.Inspect(fd.Body, func(k ast.Node) bool {
+				if d, ok := k.(*ast.AssignStmt); ok {
+					for _, l := range d.Lhs {
+						if core.ObjOf(info, l) == stored {
+							nAssign++
+						}
+					}
+				}
+				return true
+			})
 			ast.Inspect(fd.Body, func(k ast.Node) bool {
 				d, ok := k.(*ast.AssignStmt)
 				if !ok || len(d.Rhs) != 1 {
@@ -284,6 +295,10 @@ func c14r2(rc *core.RC) {
 				}
 				return true
 			})
+			if nAssign != 1 {
+				rc.Bad(key, as.Pos(), "the variable stored in the cache slot is assigned %d times: besides the compile call it receives another value (for example the program filtered for this call's field query), so what is cached depends on more than the type", nAssign)
+				return true
+			}
 			rc.Check(good, key, as.Pos(), "the slot receives the result of %s, a compile call on this function's own type argument", what)
 			return true
 		})
